@@ -3,8 +3,8 @@
    decode_encode            : schema_ok sc -> wf_msg sc id m -> len (encode m) < 2^64 ->
                               decode sc id (encode m) = Some m
    encode_inj               : ... wf m1 -> wf m2 -> encode m1 = encode m2 -> m1 = m2
-   parse_encode             : parse (encode m) = Some (map rec_of m)
-   encode_wf_bytes          : wf_msg sc id m -> wf_bytes (encode m)
+   parse_encode             : Forall entry_small m -> parse (encode m) = Some (map rec_of m)
+   (normal-form facts about the decoder: Lib/C14_ProtoWireNF.v)
    No axioms. *)
 From Coq Require Import List Arith NArith Lia Bool ZifyBool ZifyNat ZifyN.
 From GQ Require Import Lib.Key Lib.C14_Varint Lib.C14_ProtoWire.
